@@ -430,15 +430,17 @@ def check_C04(tier, nproc=None):
     o = {'bits_intrinsics': True}
     rows = list(range(-348, 348))
     for e10 in rows:
-        c.add(Job('vH_EL', [('int', e10), ('int', 0), ('bool', False)], pkg=FP, weight=1000, opts=o))
+        oo = dict(o, nsamples=(1 if e10 % 16 == 0 else 0))
+        c.add(Job('vH_EL', [('int', e10), ('int', 0), ('bool', False)], pkg=FP, weight=1000, opts=oo))
     extra_clz = [1, 63] if tier == 'quick' else [1, 2, 3, 10, 11, 31, 52, 53, 62, 63]
-    step = 29 if tier == 'quick' else 1
+    step = 58 if tier == 'quick' else 1
+    o0 = dict(o, nsamples=0)
     for e10 in rows[::step]:
         for k in extra_clz:
-            c.add(Job('vH_EL', [('int', e10), ('int', k), ('bool', False)], pkg=FP, weight=900, opts=o))
-        c.add(Job('vH_EL', [('int', e10), ('int', 0), ('bool', True)], pkg=FP, weight=900, opts=o))
+            c.add(Job('vH_EL', [('int', e10), ('int', k), ('bool', False)], pkg=FP, weight=900, opts=o0))
+        c.add(Job('vH_EL', [('int', e10), ('int', 0), ('bool', True)], pkg=FP, weight=900, opts=o0))
     c.bounds = {'scanner_all_strings': N, 'scanner_templates': [_tmplstr(t) for t in T],
-                'eisel_lemire': 'every one of the 696 table rows x every 64-bit mantissa with 0 leading zeros; leading-zero counts %s on %s rows; negative sign on the same rows' % (extra_clz, 'every 29th' if tier == 'quick' else 'all')}
+                'eisel_lemire': 'every one of the 696 table rows x every 64-bit mantissa with 0 leading zeros; leading-zero counts %s on %s rows; negative sign on the same rows' % (extra_clz, 'every 58th' if tier == 'quick' else 'all')}
     c.must_reach = ['C04.scan-returned', 'C04.scan-ok', 'C04.el-returned', 'C04.el-ok']
     _std(c, ['R-ROUND (engine/gosym/fpspec.py): nearest binary64 with ties to even, as linear integer inequalities per exponent field; validated natively with math/big in replays',
              'math/bits.Mul64 and LeadingZeros64 are exact term-level intrinsics'])
@@ -448,3 +450,94 @@ def check_C04(tier, nproc=None):
     c.run_jobs(nproc)
     c.confirm()
     return c.finish()
+
+
+def check_C19(tier, nproc=None):
+    c = Check('C19', tier)
+    N = 6 if tier == 'quick' else 8
+    o = {'monitor_alloc': True, 'float_contract': True, 'no_float_overflow': True}
+    for group in range(16):
+        nmax = N if group in (0, 1, 2, 3, 4, 5, 6) else min(N, 6)
+        for n in range(0, nmax + 1):
+            c.add(Job('vH_C19', [('bytes', 'd', n), ('int', group)], weight=3 ** n, opts=o))
+    D = 'digit'
+    T = [([b'"', 1, b'\\u', ('hex', 4), 1, b'"'], 5), ([b'"\\u', ('hex', 4), b'\\u', ('hex', 4), b'"'], 5), ([1, b'\\u', ('hex', 4), 1], 6),
+         ([b'[[', 1, b'],{"', 1, b'":[', 1, b']}]'], 3), ([b'{"', 1, b'":[{"', 1, b'":', 1, b'}]}'], 4), ([b'[[[[', 1, b']]]]'], 0), ([b'[[[[', 1, b']]]]'], 2),
+         ([(19, D), 1], 10), ([b'-', (19, D), 1], 10), ([(20, D), 1], 11), ([(1, D), b'.', (3, D), b'e', (2, D), 1], 15), ([(21, D), 1], 15)]
+    for t, group in T:
+        t = [((x[1], x[0]) if isinstance(x, tuple) and isinstance(x[0], str) else x) for x in t]
+        c.add(Job('vH_C19', [('tmpl', 'd', t), ('int', group)], weight=3000, opts=o))
+    c.bounds = {'N': N, 'groups': 16, 'templates': [_tmplstr([((x[1], x[0]) if isinstance(x, tuple) and isinstance(x[0], str) else x) for x in t]) + ' g%d' % g for t, g in T]}
+    c.must_reach = ['C19.warmed', 'C19.success']
+    _std(c, ['allocation sites: the Go compiler\'s escape analysis (go build -gcflags=-m, regenerated each run) decides which make/new/conversion/boxing/closure sites heap-allocate; append beyond capacity, make(map) and fmt calls always do; a non-escaping []byte->string conversion allocates when longer than 32 bytes',
+             'warm Buffer = the same call made once before on the same document with a handler that declines every member',
+             'float conversion: fp.ParseJSONFloatPrefix is replaced by its contract here; its call-graph closure is scanned for allocation sites instead (coverage.float_closure_sites)'])
+    c.outside = ['allocations the compiler introduces without reporting them under -m', 'inputs longer than the bounds']
+    c.run_jobs(nproc)
+    # static scan: no allocation site in the call-graph closure of the float conversion
+    sites = float_closure_alloc_sites(c.prog, getattr(c, 'escape_lines', []))
+    c.extra_coverage['float_closure_sites'] = sites
+    c.confirm()
+    if sites:
+        confirm_float_allocs(c, sites)
+    return c.finish()
+
+
+def float_closure_alloc_sites(prog, escape_lines):
+    esc = set(escape_lines)
+    root = FP + '.ParseJSONFloatPrefix'
+    seen = set()
+    work = [root]
+    sites = []
+    while work:
+        name = work.pop()
+        if name in seen:
+            continue
+        seen.add(name)
+        fn = prog.funcs.get(name)
+        if fn is None or fn.extern:
+            if name.startswith('fmt.') or name.startswith('strconv.') or name.startswith('strings.'):
+                sites.append('call to %s' % name)
+            continue
+        for b in fn.blocks:
+            for ins in b.instrs:
+                op = ins['op']
+                pos = ins.get('pos', '').replace('/repo/', '')
+                if op in ('MakeSlice', 'MakeMap', 'MakeChan'):
+                    sites.append('%s %s' % (op, pos))
+                elif op == 'MakeClosure' and ins.get('bindings'):
+                    sites.append('closure %s' % pos)
+                elif op == 'Convert':
+                    a, t = prog.types[ins['xt']], prog.types[ins['type']]
+                    if (a['kind'], t['kind']) in (('slice', 'string'), ('string', 'slice')):
+                        sites.append('conversion %s->%s %s' % (a['str'], t['str'], pos))
+                elif op == 'Alloc' and ins.get('heap') and pos in esc:
+                    sites.append('moved to heap %s' % pos)
+                elif op == 'MakeInterface' and pos in esc:
+                    sites.append('boxing %s' % pos)
+                elif op in ('Call', 'Defer', 'Go'):
+                    cc = ins['call']
+                    callee = cc.get('callee')
+                    if callee is not None and callee[0] == 3:
+                        work.append(callee[1])
+                    elif callee is not None and callee[0] == 4 and callee[1] == 'append':
+                        sites.append('append %s' % pos)
+                    elif 'invoke' in cc:
+                        sites.append('dynamic call %s' % pos)
+    return sorted(set(sites))
+
+
+def confirm_float_allocs(c, sites):
+    """native confirmation of statically found allocation sites in the float path"""
+    from gosym.driver import native_replay
+    try:
+        out = native_replay([('floatbattery', [], 'vH_C19_floatbattery()')])
+    except Exception as e:
+        c.unconfirmed.append({'what': 'float closure allocation sites %s' % sites, 'reason': 'battery could not run: %s' % e})
+        return
+    v = out.get('floatbattery', ('MISSING', ''))
+    if v[0] in ('FAIL', 'PANIC'):
+        c._report({'kind': 'assert', 'what': 'C19.float-path-allocates ' + v[1] + ' sites=' + '; '.join(sites)[:300], 'pos': '', 'call': 'vH_C19_floatbattery()',
+                   'script': [], 'job': 'static scan of the float conversion closure', 'native': v[0] + ' ' + v[1]})
+    else:
+        c.unconfirmed.append({'what': 'float closure allocation sites %s' % sites, 'reason': 'native battery shows no allocation'})
